@@ -1,5 +1,5 @@
 import BumpVerif.Model.Multi
-import BumpVerif.Proofs.Live
+import BumpVerif.Proofs.Rewind
 import BumpVerif.Props.GenFacts
 /-!
 # C20 — arenas are isolated from each other, also across threads
@@ -87,9 +87,9 @@ theorem unguarded_counterexample : ∃ E a sz al, storesToStaticUnguarded E a sz
 
 /-- the arena-side invariants hold for each arena of an interleaving separately (C01 per arena) -/
 theorem interleaved_live {E} (hE : EnvOK E) (ops : List (Bool × Op)) (t : Two)
-    (i1 : LiveInv E t.y1) (h1 : RunOK E (project false ops) t.y1) : LiveInv E (run2 E ops t).1.y1 := by
+    (i1 : LiveInv E t.y1) (h1 : RunOKFull E (project false ops) t.y1) : LiveInv E (run2 E ops t).1.y1 := by
   rw [(interleaving_isolated E ops t).1]
-  exact (sysRun_live hE _ _ i1 h1).1
+  exact (sysRun_live_full hE _ _ i1 h1).1
 
 example : (run2 160 [(false, .alloc 8 8 true), (true, .alloc 8 8 true), (false, .reset)]
     ⟨⟨{ a := ⟨1, [⟨4096, 560, 16, 4608, 512⟩], none⟩, ans := [] }, []⟩,
